@@ -760,12 +760,14 @@ def run(ctx):
                     cases.append(c)
     terms, kept = [], []
     found = 0
-    # private directory for the written MIDI files (ctx.work is wiped when another run of C04 starts)
-    fdir = os.path.join(core.WORKROOT, "C04_mid_%d" % os.getpid())
-    os.makedirs(fdir, exist_ok=True)
-    import atexit
+    # private work directory: the default .work/C04 is wiped whenever another run of C04 starts or
+    # ends, which would remove the MIDI files / cases_*.v of this run (finish() removes ctx.work)
     import shutil
-    atexit.register(shutil.rmtree, fdir, True)
+    shutil.rmtree(ctx.work, ignore_errors=True)
+    ctx.work = os.path.join(core.WORKROOT, "C04_%d" % os.getpid())
+    shutil.rmtree(ctx.work, ignore_errors=True)
+    os.makedirs(ctx.work, exist_ok=True)
+    fdir = ctx.work
     for case in cases:
         try:
             obs, parts = run_impl(case, fdir)
